@@ -2,6 +2,7 @@ import Tau.Rule
 import Tau.Proofs.Pratt
 import Tau.Proofs.Safe
 import Tau.Proofs.MappingSafe
+import Tau.Proofs.SafeOpt
 /-
   C03 — An accepted rule can always be evaluated (no panic after load).
 -/
@@ -231,5 +232,52 @@ theorem loaded_rule_never_panics (E : RegexEngine) (ic : Bool) (entries : List (
     hitsTop E d.ids (.user g) d.expr = false :=
   safe_rule_never_panics E d.ids g d.expr (loaded_bodies_safe E ic entries d h)
     (loaded_condition_safe E ic entries d h hdef)
+
+end Tau.C03
+
+namespace Tau.C03
+open Tau
+
+/-! ### Optimised rules: the passes proved so far keep the tree safe -/
+
+theorem nod_eq : (fun i => (lookupId ([] : Ids) i).isSome) = nod := by
+  funext i; rfl
+
+/-- A closed safe tree evaluated with no identifier environment (what `optimise` leaves after
+    `coalesce`) reaches no panic site. -/
+theorem closed_safe_never_panics (E : RegexEngine) (e : Expr) (h : safe nod e = true) (g : Str → Option Value) :
+    hitsTop E [] (.user g) e = false :=
+  top_no_hits E [] (.user g) (noFP_user g) e (fun i b hl => by simp [lookupId] at hl) (by rw [nod_eq]; exact h)
+
+/-- The coalesced tree of a loaded rule is safe, and stays safe under `shake_0` and `rewrite`. -/
+theorem loaded_coalesced_safe (E : RegexEngine) (ic : Bool) (entries : List (Str × Yaml)) (d : Detection)
+    (h : loadDetection E ic entries = .ok d)
+    (hdef : ∀ i ∈ condIdents d.expr, (lookupId d.ids i).isSome = true) :
+    safe nod (coalesce d.ids d.expr) = true := by
+  obtain ⟨hshape, hsolv⟩ := loaded_condition_shape E ic entries d h
+  exact coalesce_safe d.ids d.expr hshape hsolv hdef (loaded_bodies_safe E ic entries d h)
+
+/-- **Optimised with coalesce (and optionally rewrite): matching never panics.** -/
+theorem optimised_coalesce_rewrite_never_panics (E : RegexEngine) (ic : Bool) (entries : List (Str × Yaml))
+    (d : Detection) (h : loadDetection E ic entries = .ok d)
+    (hdef : ∀ i ∈ condIdents d.expr, (lookupId d.ids i).isSome = true) (rw : Bool) (g : Str → Option Value) :
+    let o := optimiseTree E ⟨true, false, rw, false⟩ d.ids d.expr
+    hitsTop E o.2 (.user g) o.1 = false := by
+  have hs := loaded_coalesced_safe E ic entries d h hdef
+  cases rw with
+  | false =>
+    simp only [optimiseTree, if_true, Bool.false_eq_true, if_false]
+    exact closed_safe_never_panics E _ hs g
+  | true =>
+    simp only [optimiseTree, if_true, Bool.false_eq_true, if_false, List.map_nil]
+    exact closed_safe_never_panics E _ (rewrite_safe E nod _ hs) g
+
+/-- `shake_0` on top of that keeps it so (any fuel). -/
+theorem coalesce_shake0_never_panics (E : RegexEngine) (ic : Bool) (entries : List (Str × Yaml))
+    (d : Detection) (h : loadDetection E ic entries = .ok d)
+    (hdef : ∀ i ∈ condIdents d.expr, (lookupId d.ids i).isSome = true) (fuel : Nat) (g : Str → Option Value) :
+    hitsTop E [] (.user g) (rewrite E (shake0 fuel (coalesce d.ids d.expr))) = false :=
+  closed_safe_never_panics E _
+    (rewrite_safe E nod _ (shake0_safe nod fuel _ (loaded_coalesced_safe E ic entries d h hdef))) g
 
 end Tau.C03
